@@ -55,9 +55,9 @@ RunResult run_w2f(const Plan& pl) {
                 // natural force scale of the active terms: below 1e-12 of it the field is rounding noise (e.g. angle regularisation of an all-equilateral mesh)
                 size_t nfaces = 0; for (char u : v.fused) nfaces += u; double edge = L / std::max(1.0, std::sqrt((double)nfaces / 8));
                 double S = c.K * L * L + std::max({c.tension[0], c.tension[1], c.tension[2]}) * L + c.ka / L + (c.bend + c.angle) * nfaces / edge;
-                bool sliver = false; double minq = 1; for (size_t f = 0; f < v.tri.size(); f++) if (v.fused[f]) { V3 a = v.pos[v.tri[f][0]], b = v.pos[v.tri[f][1]], d = v.pos[v.tri[f][2]]; double e2 = std::max({(b - a).n2(), (d - a).n2(), (d - b).n2()}); double q = 0.5 * (b - a).cross(d - a).norm() / (0.433 * e2); minq = std::min(minq, q); if (q * 0.433 < 1e-6) sliver = true; }
+                bool sliver = false; double minq = 1; for (size_t f = 0; f < v.tri.size(); f++) if (v.fused[f]) { V3 a = v.pos[v.tri[f][0]], b = v.pos[v.tri[f][1]], d = v.pos[v.tri[f][2]]; double e2 = std::max({(b - a).n2(), (d - a).n2(), (d - b).n2()}); double q = 0.5 * (b - a).cross(d - a).norm() / (0.433 * e2); minq = std::min(minq, q); if (q < 1e-3) sliver = true; }   // (a needle: area below a thousandth of the equilateral triangle on its longest edge)
                 const double ctol = 1e-9 / std::max(minq, 1e-6);     // cotangents and 1/area amplify rounding on thin triangles
-                if (sliver && c.bend > 0) { res.probes.hit("bending_skipped_sliver_triangle"); continue; }   // hinge forces scale with 1/area: a (nearly) zero-area triangle is outside the premise of a non-degenerate surface
+                if (sliver && c.bend > 0) { res.probes.hit("bending_skipped_sliver_triangle"); continue; }   // hinge forces scale with 1/area and with sin(acos(n1.n2)): on a needle next to a flat hinge the rounding of acos near 1 (~1.5e-8 rad) decides the whole force
                 if (Fabs > 0 && Fabs < 1e-9 * S) { res.probes.hit("force_field_is_rounding_noise"); continue; }
                 if (Fabs > 0) {
                     res.probes.hit(std::string("checked_") + c.name);
@@ -75,20 +75,43 @@ RunResult run_w2f(const Plan& pl) {
                     double Rabs = 0, worst = 0; size_t wi = 0; for (size_t i = 0; i < F.size(); i++) if (v.nused[i]) { Rabs += R[i].norm(); double e = (F[i] - R[i]).norm(); if (e > worst) { worst = e; wi = i; } }
                     double D = std::max({std::fabs(g.centroid_area.x), std::fabs(g.centroid_area.y), std::fabs(g.centroid_area.z)});
                     double fmx = 0; for (size_t i = 0; i < F.size(); i++) if (v.nused[i]) fmx = std::max(fmx, std::max(F[i].norm(), R[i].norm()));
-                    double tol = (1e-6 + 1e-14 * std::pow(1 + D / L, 3)) * fmx + 1e-300;   // (A/At - 1) and ln(V/Vt) cancel digits when the cell is close to its target
+                    // ln(V/Vt) and (A/At - 1) cancel digits when the cell is close to its target: the rounding of the volume / area sums
+                    // (relative ~1e-16 (1+D/L)^3 for sums about the origin) is amplified by 1/|ln(V/Vt)| resp. 1/|A/At - 1| in the force
+                    double cancel = is_p ? std::fabs(std::log(g.volume / cc->get_target_volume())) : (c.ka > 0 ? std::max(std::fabs(area / At - 1) * std::fabs(mef) / std::max(std::fabs(mef) + std::max({c.tension[0], c.tension[1], c.tension[2]}) / 1.0, 1e-300), 0.0) : 1.0);
+                    double amp = 1.0 / std::max(cancel, 1e-12);
+                    double reltol = 1e-6 + 1e-13 * std::pow(1 + D / L, 3) * amp;
+                    if (reltol > 1e-3) { res.probes.hit("force_law_skipped_at_cancellation"); }
+                    double tol = reltol * fmx + 1e-300;
+                    if (reltol > 1e-3) tol = 1e300;
                     if (worst > tol) { who << "force on node " << wi << " differs from " << (is_p ? "P dV/dx" : "-sum gamma_eff dA/dx") << " by " << worst << " (|f| " << F[wi].norm() << ", reference " << R[wi].norm() << ")"; res.fail("C02", std::string("force_law.") + c.name, who.str()); break; }
                     res.probes.hit("force_law_checked");
                 }
                 // rigid motion: rotate + translate the copy in place and recompute (caches are then stale until recomputed by the call)
                 bool degenerate_tri = false; for (size_t f = 0; f < v.tri.size(); f++) if (v.fused[f]) { V3 a = v.pos[v.tri[f][0]], b = v.pos[v.tri[f][1]], d = v.pos[v.tri[f][2]]; double e2 = std::max({(b - a).n2(), (d - a).n2(), (d - b).n2()}); if (0.5 * (b - a).cross(d - a).norm() < 1e-9 * e2) degenerate_tri = true; }
                 if (degenerate_tri) res.probes.hit("rigid_motion_skipped_degenerate_triangle");    // the area gradient is undefined for a zero-area triangle: any rounding decides its direction
-                if (pl.geti("rigid", 1) && Fabs > 0 && !degenerate_tri) {
+                // the bending term is switched off hinge by hinge beyond 135 degrees and changes branch between convex and concave hinges: a hinge
+                // sitting on one of these two discontinuities may fall on either side after the rotation is rounded
+                bool hinge_at_threshold = false;
+                if (c.bend > 0 && !degenerate_tri) { std::map<std::pair<unsigned, unsigned>, std::vector<size_t>> eh; for (size_t f = 0; f < v.tri.size(); f++) if (v.fused[f]) for (int q = 0; q < 3; q++) { unsigned a = v.tri[f][q], b = v.tri[f][(q + 1) % 3]; eh[{std::min(a, b), std::max(a, b)}].push_back(f); }
+                    for (auto& kv : eh) { if (kv.second.size() != 2) continue; auto nrm = [&](size_t f) { V3 w = (v.pos[v.tri[f][1]] - v.pos[v.tri[f][0]]).cross(v.pos[v.tri[f][2]] - v.pos[v.tri[f][0]]); return w / std::max(w.norm(), 1e-300); }; V3 n1 = nrm(kv.second[0]), n2 = nrm(kv.second[1]); double dt_ = std::max(-1.0, std::min(1.0, n1.dot(n2))); double th = std::acos(dt_);
+                        unsigned opp = 0; for (int q = 0; q < 3; q++) { unsigned w = v.tri[kv.second[1]][q]; if (w != kv.first.first && w != kv.first.second) opp = w; } V3 e2 = v.pos[opp] - v.pos[kv.first.first]; double side = std::fabs(e2.dot(n1)) / std::max(e2.norm(), 1e-300);
+                        if (std::fabs(th - 135.0 * M_PI / 180.0) < 1e-6 || (side < 1e-7 && th > 1e-6)) hinge_at_threshold = true; } }
+                if (hinge_at_threshold) res.probes.hit("rigid_motion_skipped_hinge_at_discontinuity");
+                if (pl.geti("rigid", 1) && Fabs > 0 && !degenerate_tri && !hinge_at_threshold) {
                     M33 Rm = random_rotation(r); V3 tr = random_unit(r) * (L * r.uni(0, 3)); V3 ctr = g.centroid_area;
                     for (auto& n : cell_tester::nodes(*cc)) if (n.is_used()) { V3 p = Rm * (V3(n.pos()) - ctr) + ctr + tr; cell_tester::pos(n).reset(p.x, p.y, p.z); }
                     zero_forces(*cc); cc->apply_internal_forces(0.0); res.sim_iterations++;
                     std::vector<V3> F2 = forces_of(*cc); double worst = 0; for (size_t i = 0; i < F.size(); i++) if (v.nused[i]) worst = std::max(worst, (F2[i] - Rm * F[i]).norm());
                     double fmax = 0; for (auto& f : F) fmax = std::max(fmax, f.norm());
-                    if (worst > 1e-6 / std::max(minq, 1e-6) * fmax) { who << "after a rigid motion of the cell the force field is not the rotated field (max deviation " << worst << ", max force " << fmax << ")"; res.fail("C02", std::string("rigid_motion.") + c.name, who.str()); break; }
+                    if (getenv("W2F_DEBUG") && worst > 1e-6 / std::max(minq, 1e-6) * fmax) { size_t wi = 0; double ww = 0; for (size_t i = 0; i < F.size(); i++) if (v.nused[i]) { double e = (F2[i] - Rm * F[i]).norm(); if (e > ww) { ww = e; wi = i; } }
+                        fprintf(stderr, "DEBUG term %s minq %.3g worst node %zu |F| %.4g |F2| %.4g dev %.4g\n", c.name, minq, wi, F[wi].norm(), F2[wi].norm(), ww);
+                        CellView v2 = view_of(*cc); for (size_t f = 0; f < v.tri.size(); f++) if (v.fused[f] && (v.tri[f][0] == wi || v.tri[f][1] == wi || v.tri[f][2] == wi)) { auto q = [&](const CellView& w) { V3 a = w.pos[w.tri[f][0]], b = w.pos[w.tri[f][1]], d = w.pos[w.tri[f][2]]; double e2 = std::max({(b - a).n2(), (d - a).n2(), (d - b).n2()}); return 0.5 * (b - a).cross(d - a).norm() / (0.433 * e2); }; fprintf(stderr, "  face %zu quality %.3g -> %.3g\n", f, q(v), q(v2)); }
+                        for (size_t f = 0; f < v.tri.size(); f++) if (v.fused[f]) for (size_t f2 = f + 1; f2 < v.tri.size(); f2++) if (v.fused[f2]) { int sh = 0; bool haswi = false; for (int a = 0; a < 3; a++) for (int b = 0; b < 3; b++) if (v.tri[f][a] == v.tri[f2][b]) sh++; for (int a = 0; a < 3; a++) if (v.tri[f][a] == wi || v.tri[f2][a] == wi) haswi = true; if (sh == 2 && haswi) { auto nrm = [&](const CellView& w, size_t g) { V3 x = (w.pos[w.tri[g][1]] - w.pos[w.tri[g][0]]).cross(w.pos[w.tri[g][2]] - w.pos[w.tri[g][0]]); return x / std::max(x.norm(), 1e-300); }; fprintf(stderr, "  hinge %zu/%zu angle %.9f deg -> %.9f deg\n", f, f2, std::acos(std::max(-1.0, std::min(1.0, nrm(v, f).dot(nrm(v, f2))))) * 180 / M_PI, std::acos(std::max(-1.0, std::min(1.0, nrm(v2, f).dot(nrm(v2, f2))))) * 180 / M_PI); } } }
+                    double rt = 1e-6 / std::max(minq, 1e-6);
+                    { double Dm = std::max({std::fabs(ctr.x), std::fabs(ctr.y), std::fabs(ctr.z)}) + tr.norm(); double lnv = std::fabs(std::log(g.volume / cc->get_target_volume())); double area2 = 0; for (size_t f = 0; f < v.tri.size(); f++) if (v.fused[f]) area2 += 0.5 * (v.pos[v.tri[f][1]] - v.pos[v.tri[f][0]]).cross(v.pos[v.tri[f][2]] - v.pos[v.tri[f][0]]).norm(); double At2 = std::cbrt(150 * g.volume * g.volume);
+                      double amp2 = std::max(c.K > 0 ? 1.0 / std::max(lnv, 1e-12) : 0.0, c.ka > 0 ? 1.0 / std::max(std::fabs(area2 / At2 - 1), 1e-12) : 0.0); rt = std::max(rt, 1e-13 * std::pow(1 + Dm / L, 3) * amp2); }
+                    if (rt > 1e-3) { res.probes.hit("rigid_motion_skipped_at_cancellation"); } else
+                    if (worst > rt * fmax) { who << "after a rigid motion of the cell the force field is not the rotated field (max deviation " << worst << ", max force " << fmax << ")"; res.fail("C02", std::string("rigid_motion.") + c.name, who.str()); break; }
                     res.probes.hit("rigid_motion_checked");
                 }
                 for (auto& f : F) { log.addd(f.x); log.addd(f.y); log.addd(f.z); }
